@@ -4,6 +4,7 @@ import ApdVerif.Model.Dispatch
 import ApdVerif.Model.BigInt
 import ApdVerif.Model.Text
 import ApdVerif.Imp.Ops
+import ApdVerif.Imp.TransOps
 import ApdVerif.Spec.Grammar
 import ApdVerif.Oracle.Roots
 import ApdVerif.Spec.Specials
@@ -114,6 +115,10 @@ def ctxOracles (id op : String) (c : Ctx) (x y : Dec) (iarg : Int) (impl : Out) 
       if impl.fl.invalidOp != e.invalid || impl.fl.divByZero != e.divByZero || impl.fl.divUndefined != e.divUndefined || impl.fl.divImpossible then
         out := out ++ [s!"{id} PROPFAIL C02 InvalidOperation/DivisionByZero/DivisionUndefined/DivisionImpossible not as the specification assigns them: expected invalid={e.invalid} divByZero={e.divByZero} divUndefined={e.divUndefined}"]
     | none => pure ()
+    for (prop, why) in opOracle op c x y iarg impl do
+      out := out ++ [s!"{id} PROPFAIL {prop} {why}"]
+  else if op == "cbrt" && (impl.err == .sys || impl.err == .other) then
+    -- C11 promises a value for every finite operand: an error return of Cbrt is judged (C11_cbrt_returns)
     for (prop, why) in opOracle op c x y iarg impl do
       out := out ++ [s!"{id} PROPFAIL {prop} {why}"]
   else if op == "quantize" && x.form == .finite && x.exp - iarg > 100000 then
@@ -795,22 +800,33 @@ def handleAlias (id : String) (t : List String) : Option (List String × Nat × 
           | "x=y" => some (0, 1, 1, {})
           | "d=x=y" => some (1, 1, 1, {})
           | _ => none
-        match cells with
+        -- a fractional power of an operand at the edge of the exponent range (the internal-error exits of Pow) costs
+        -- the models and the interval oracle seconds per outcome: those cases are here for the comparison of the
+        -- real outcomes across aliasing patterns and destination pre-states only
+        let heavy : Bool := op == "pow" && y.exp < 0 && (x.exp > 20000 || x.exp < -20000)
+        match (if heavy then none else cells) with
         | some (dc, xc, yc, pre) =>
           let h : Apd.Imp.Heap := fun cell => if cell == 0 then pre else if cell == 1 then x else if cell == 2 then y else {}
           match Apd.Imp.execCtxOp op c dc xc yc iarg h with
           | some ((mfl, merr, maux), h') =>
             let mo : Out := { d := h' dc, fl := mfl, err := merr, aux := maux }
             if !(same mo o) then res := merge res ([s!"{id} MISMATCH alias-imp[{name}] model= {showOut mo}"], 1, 0)
-          | none => pure ()
+          | none =>
+            -- the composite functions (Imp/TransOps.lean; C05_sqrt … C05_pow): Sqrt, Cbrt and the integer path of Pow
+            -- consult no decision tape
+            match Apd.Imp.execTransOp op c dc xc yc [] h with
+            | some (some ((mfl, merr, maux), _), h') =>
+              let mo : Out := { d := h' dc, fl := mfl, err := merr, aux := maux }
+              if !(same mo o) then res := merge res ([s!"{id} MISMATCH alias-imp[{name}] model= {showOut mo}"], 1, 0)
+            | _ => pure ()
         | none => pure ()
-        let ol := ctxOracles id op c x y iarg o fl d.coeffNeg
+        let ol := if heavy then [] else ctxOracles id op c x y iarg o fl d.coeffNeg
         if !ol.isEmpty then res := merge res (ol.map (fun l => l ++ s!" [pattern {name}]"), 0, ol.length)
         if name == "fresh" && !heapPat then
           base := some o
-          match runCtxOp op c x y iarg with
+          match (if heavy then none else runCtxOp op c x y iarg) with
           | some m => if !(same m o) then res := merge res ([s!"{id} MISMATCH alias model= {showOut m}"], 1, 0)
-          | none => if oracleOnlyOps.contains op then pure () else res := merge res ([s!"{id} NOMODEL {op}"], 0, 0)
+          | none => if heavy || oracleOnlyOps.contains op then pure () else res := merge res ([s!"{id} NOMODEL {op}"], 0, 0)
         else
           match base with
           | some b =>
